@@ -579,6 +579,48 @@ def dispatch_sweep(res: Result, counter: list[int]) -> int:
                     res.add(f"dispatch:{tag}:{t}:closed", f"{tag}: the session ended after a frame of type {t} with an empty payload")
                     break
             del internal
+            tag = "noise" if noise else "plain"
+            if not noise and w.conn.connection_state.name == "CONNECTED":
+                # plaintext type numbers are varints of any length: declared ids shifted into the 4th, 5th ... varint byte are undeclared
+                from .. import wire as _wire
+
+                for i in sorted(ids):
+                    for sh in (21, 28, 35):
+                        if w.conn.connection_state.name != "CONNECTED":
+                            break
+                        t = i << sh
+                        del got[:]
+                        before_tx = len(w.sent_frames())
+                        w.io_chunk(w.sock, _wire.encode_frame(t, b""))
+                        w.drain()
+                        n += 1
+                        counter[0] += 1
+                        if got or len(w.sent_frames()) != before_tx or w.conn.connection_state.name != "CONNECTED":
+                            res.add(f"dispatch:plain:undeclared:{i}<<{sh}", f"plain: a frame of undeclared type {t} (= {i} << {sh}) was dispatched as "
+                                    f"{[type(m).__name__ for m in got]}, frames written in reaction: {w.sent_names()[before_tx:]}, state {w.conn.connection_state.name}")
+                            break
+            # a frame cut inside its payload, the read that completes it also carries the next frame (of another type, same length):
+            # each is looked up under its own id
+            pay = b"\xf8\x7f\x01"  # one unknown varint field: decodable by every message class
+            decl = [i for i in sorted(ids) if ids[i] not in ("DisconnectRequest", "DisconnectResponse", "PingRequest", "GetTimeRequest", "HelloResponse", "ConnectResponse")]
+            for a, b in zip(decl, decl[1:] + decl[:1]):
+                if w.conn.connection_state.name != "CONNECTED":
+                    break
+                fa = w.ndev.data_frame(a, pay) if noise else __import__("mc.wire", fromlist=["x"]).encode_frame(a, pay)  # type: ignore[union-attr]
+                fb = w.ndev.data_frame(b, pay) if noise else __import__("mc.wire", fromlist=["x"]).encode_frame(b, pay)  # type: ignore[union-attr]
+                del got[:]
+                cut = len(fa) - 2
+                w.io_chunk(w.sock, fa[:cut])
+                w.drain()
+                w.io_chunk(w.sock, fa[cut:] + fb)
+                w.drain()
+                n += 1
+                counter[0] += 1
+                names = [type(m).__name__ for m in got]
+                if names != [ids[a], ids[b]]:
+                    res.add(f"dispatch:{tag}:cut:{a}+{b}", f"{tag}: frame {a} ({ids[a]}) cut inside its payload, completed in one read together with frame {b} "
+                            f"({ids[b]}): dispatched as {names}")
+                    break
         finally:
             w.close()
     return n
